@@ -64,10 +64,27 @@ func goSourceLineLoops(c *Ctx, rule string) {
 					}
 					if rhsT {
 						for _, l := range s.Lhs {
-							if id, ok := l.(*ast.Ident); ok && id.Name != "_" && id.Name != "err" {
+							// a store into an element or field of a local (exp[i].text = line) taints the local
+							root := l
+							for {
+								switch r := ast.Unparen(root).(type) {
+								case *ast.IndexExpr:
+									root = r.X
+									continue
+								case *ast.SelectorExpr:
+									if _, isField := info.Selections[r]; isField {
+										root = r.X
+										continue
+									}
+								}
+								break
+							}
+							if id, ok := ast.Unparen(root).(*ast.Ident); ok && id.Name != "_" && id.Name != "err" {
 								if ob := info.ObjectOf(id); ob != nil && !tainted[ob] {
-									tainted[ob] = true
-									changed = true
+									if v, isVar := ob.(*types.Var); isVar && !v.IsField() && v.Parent() != nil && v.Parent() != v.Pkg().Scope() {
+										tainted[ob] = true
+										changed = true
+									}
 								}
 							}
 						}
@@ -166,8 +183,21 @@ func goSourceLineLoops(c *Ctx, rule string) {
 				return true
 			}
 			// a sequence of lines: []string or [][]byte
-			if st, ok := info.TypeOf(rs.X).Underlying().(*types.Slice); !ok || !(st.Elem().String() == "string" || st.Elem().String() == "[]byte") {
+			if st, ok := info.TypeOf(rs.X).Underlying().(*types.Slice); !ok {
 				return true
+			} else if !(st.Elem().String() == "string" || st.Elem().String() == "[]byte") {
+				// or a sequence of records that carry a line of text (struct with a string field)
+				hasText := false
+				if rec, ok := st.Elem().Underlying().(*types.Struct); ok {
+					for i := 0; i < rec.NumFields(); i++ {
+						if isStringType(rec.Field(i).Type()) {
+							hasText = true
+						}
+					}
+				}
+				if !hasText {
+					return true
+				}
 			}
 			var elem types.Object
 			if id, ok := rs.Value.(*ast.Ident); ok && id.Name != "_" {
@@ -199,6 +229,14 @@ func goSourceLineLoops(c *Ctx, rule string) {
 				switch e := e.(type) {
 				case *ast.Ident:
 					return elem != nil && info.ObjectOf(e) == elem && !reassigned
+				case *ast.SelectorExpr:
+					// the text field of a line record
+					if id, ok := ast.Unparen(e.X).(*ast.Ident); ok && elem != nil && info.ObjectOf(id) == elem && !reassigned {
+						if t := info.TypeOf(e); t != nil && isStringType(t) {
+							return true
+						}
+					}
+					return false
 				case *ast.IndexExpr:
 					if id, ok := e.Index.(*ast.Ident); ok && idx != nil && info.ObjectOf(id) == idx {
 						return isT(e.X)
